@@ -14,7 +14,11 @@ Accept(e) ==
   /\ NotFar(Val(r), Val(a), e.width)
   \* for sqrt/log on the real axis, -z lies on the branch cut (sign of zero decides): not compared
   /\ (a.k = "u" => Structure(a, e.width) /\ NotFar(r.wc, a.wc, e.width) /\ ((a.cut = 1 /\ SignIm(a.z) = 0) \/ NotFar(r.wn, a.wn, e.width)))
-  /\ (a.k = "b" => ExactRule(a))
+  /\ (a.k = "b" => ExactRule(a, e.width))
+  \* scale relation: f(z * 2^s) scaled back by the exact power of two agrees with f(z) (s = +-600, float +-70)
+  /\ (a.k = "h" => /\ Finite(a.w) /\ Finite(a.ws)
+                   \* the logarithm relation subtracts s * ln 2 from a result of that size: conditioned by |s ln 2 / log z|, judged with the coarse threshold
+                   /\ (IF a.fn \in {"log", "logabs"} THEN NotFar(a.w, a.ws, e.width) ELSE Close(a.w, a.ws, e.width)))
   /\ (a.k \in {"r", "r2"} => Finite(a.y))
 Inconclusive(e) == DistClass(Val(e.ref), Val(e.alt), e.width) = 1
 TraceInit == l = 1
